@@ -26,15 +26,15 @@ TRUSTED = [
 ]
 
 # priority order for attributing an unexplained-by-repair failure to a class present in the input
+# (F11-float-nonfinite: the lexer rejects such literals since d8fda67, no source parses to one; C14-named-param-type:
+#  repaired by 212f897 -- both classes are gone)
 # (the classes of C14-ident-star-bare, C14-restricted-position, C14-param-range are gone: repaired by commits 328740d,
 #  95d15ad + 2a611aa, 1b7b9df -- a recurrence is a VIOLATION)
 CLASS_TO_FINDING = [
     ("doc-comment-split", "C14-doc-comment-split"),
-    ("named-param-type", "C14-named-param-type"),
-    ("float-nonfinite", "F11-float-nonfinite"),
     ("float-integral", "F11-float-integral"),
 ]
-REPAIR_TO_FINDING = {"float-integral": "F11-float-integral", "float-nonfinite": "F11-float-nonfinite"}
+REPAIR_TO_FINDING = {"float-integral": "F11-float-integral"}
 
 
 def sql_same(x, y):
